@@ -37,10 +37,35 @@ class Gen2(M.Gen):
         if k == 0:
             return E(Un("call", Code(E(Un("scopeName", S(r.choice(["s1", "s2"])))), *body)))
         if k == 1:
-            return E(Bin("catch", Un("try", Code(*body)), Code(self.mark(Var("_exception")), E(Var("_exception")))))
+            return E(Bin("catch", Un("try", Code(*body)), self.handler(d)))
         if k == 2:
             return E(Un("call", Code(E(Un("scopeName", S("s1"))), E(Un("call", Code(E(Un("scopeName", S("s2"))), *body))), self.mark())))
         return E(Un("call", Code(*body)))
+
+    def handler(self, d):
+        """the catch block: it reports the exception and yields it; sometimes it leaves early itself (a throw out of a handler
+        goes to the next handler outwards and nothing of this handler, nor of the scope the try-catch stands in, runs any more)"""
+        r = self.rng
+        if r.random() < 0.4:
+            return Code(self.mark(Var("_exception")), self.early_exit(d, 0), self.mark(), E(self.value_expr(0)))
+        return Code(self.mark(Var("_exception")), E(Var("_exception")))
+
+    def rethrow(self, d):
+        """try-catch inside try-catch (directly, or inside a function called from the outer block), the inner handler throws -
+        always or under a condition - and has statements behind the throw"""
+        r = self.rng
+        v = r.choice(self.locals)
+        cond = r.random() < 0.6
+        thr = E(Bin("throw", Un("if", self.boolean(min(d, 1))), self.num(0))) if cond else E(Un("throw", self.num(0)))
+        inner = Bin("catch", Un("try", Code(self.mark(), E(Un("throw", self.num(0))), self.mark())),
+                    Code(self.mark(Var("_exception")), thr, self.mark(), E(self.value_expr(0))))
+        if r.random() < 0.5:
+            body = [Asg(v, inner), self.mark(Var(v))]
+        else:
+            fn = Code(Asg(v, inner), self.mark(Var(v)), E(Var(v)))
+            body = [self.mark(Arr(Bin("call", self.num(0), fn), Bin("call", self.num(0), fn)))]
+        return E(Bin("catch", Un("try", Code(self.mark(), *body, self.mark(), E(self.value_expr(0)))),
+                     Code(self.mark(Var("_exception")), E(Var("_exception")))))
 
     def loop_with(self, d, inner):
         r = self.rng
@@ -96,7 +121,7 @@ class Gen2(M.Gen):
         if depth > 0 and k == 15:      # except__ belongs to C04
             k = 14
         if depth > 0 and k == 17:
-            return E(self.construct_value(d))
+            return self.rethrow(d) if r.random() < 0.35 else E(self.construct_value(d))
         if depth > 0 and k == 18:
             return self.scoped(d, [self.mark(), self.early_exit(d), self.mark()])
         if depth > 0 and k == 19:
